@@ -6,6 +6,7 @@ mod c04;
 mod c12;
 mod c13;
 mod c14;
+mod c19;
 mod c20;
 
 fn main() {
@@ -15,6 +16,7 @@ fn main() {
         "C12" => Some(c12::check()),
         "C13" => Some(c13::check()),
         "C14" => Some(c14::check()),
+        "C19" => Some(c19::check()),
         "C20" => Some(c20::check()),
         _ => None,
     })
